@@ -49,6 +49,8 @@ def _ray_cases(draw, tier):
         c["s"] = draw(st.integers(-4, 4)) / 2.0
     # each ray may be given by two points that lie close together (the crossing is then many segment lengths away)
     c["short"] = draw(st.sampled_from([0, 0, 0, 8, 12]))
+    # the crossing point may lie a few hundred units from the origin, in any quadrant / octant
+    c["xfar"] = draw(st.sampled_from([1, 1, 1, 64, -64]))
     return c
 
 
@@ -68,6 +70,9 @@ def check_rays(case, ctx):
         d2[-1] = F(1)
     if kind in ("cross", "nearmiss"):
         X = [F(x) for x in case["X"]]
+        if case.get("xfar", 1) != 1:
+            X = [abs(x) * case["xfar"] + case["xfar"] for x in X]          # all coordinates of one sign, magnitude 64 .. 600
+            ctx.label("crossing-far-from-origin")
         p1 = [x - F(case["t1"]) * d for x, d in zip(X, d1)]
         p2 = [x - F(case["t2"]) * d for x, d in zip(X, d2)]
         if kind == "nearmiss":
@@ -259,12 +264,33 @@ def _voxel_cases(draw, tier):
         off = [2.0 ** 19, 2.0 ** 22, 0.0]
         d["P"] = [[c + o for c, o in zip(q, off)] for q in d["P"]]
         d["far_from_origin"] = True
+    if not d.get("far_from_origin") and draw(st.integers(0, 5)) == 0:
+        d["tiny_exp"] = -26          # the same model in units of 2^-26 (a part of a few hundred nanometres, given in metres)
     return {"defn": d, "grid": [draw(st.integers(2, 8 if tier == "thorough" else 5)) for _ in range(3)], "cubes": draw(st.booleans()),
             "n": draw(st.integers(2, 5)), "procs": draw(st.sampled_from([1, 1, 1, 2, 3])), "pair": draw(st.integers(0, 3)) == 0}
 
 
 def check_voxels(case, ctx):
     d = case["defn"]
+    if d.get("tiny_exp"):
+        # a very small model: the request is answered (in finite time), the grid covers the box, every sampled point lies in a voxel
+        S = 2.0 ** d["tiny_exp"]
+        ctx.label("model-in-very-small-units")
+        ctx.nt(True, "some-voxel-decided")
+        small = build.make(dict(d, P=[[c * S for c in q] for q in d["P"]]))
+        small.delta = 1.0 / case["n"]
+        sbb = small.bbox
+        if len([i for i in range(3) if sbb[1][i] == sbb[0][i]]) > 1:
+            raise Skip("a line")
+        g, f = voxelize.voxelize(small, grid_size=tuple(case["grid"]), use_cubes=case["cubes"])
+        ctx.check(len(g) == len(f) and len(g) > 0, "voxel-counts", "%d voxels but %d fill flags" % (len(g), len(f)))
+        for i in range(3):
+            ctx.check(len(g) > 0 and min(v[0][i] for v in g) <= sbb[0][i] + 1e-9 * S and max(v[1][i] for v in g) >= sbb[1][i] - 1e-9 * S, "voxel-grid-does-not-cover-bbox",
+                      "tiny model: voxel grid does not span the bounding box [%r, %r] on axis %d" % (sbb[0][i], sbb[1][i], i))
+        for p in small.evalpts:
+            ctx.check(any(all(v[0][i] - 1e-7 <= p[i] <= v[1][i] + 1e-7 for i in range(3)) for v in g), "sampled-point-outside-grid", "tiny model: sampled point %r lies in no voxel" % (list(p),))
+        ctx.check(sum(f) >= 1, "voxel-not-filled", "tiny model: no voxel is marked filled although every sampled point lies in the grid")
+        return
     obj = build.make(d)
     obj.delta = 1.0 / case["n"]
     bb = obj.bbox
